@@ -199,6 +199,8 @@ def choose_value(rng, f, maxcount=3, col_mode=None):
         return dict(str=s, af=af)
     w = f["width"]
     ones = (1 << w) - 1
+    if f["kind"] == "num" and abs(f["ref"]) >= 2 ** 31:
+        raise Reject("reference value beyond 32 bits after 2 07 YYY: outside what a reference value can hold")
     if f["kind"] == "num" and w > 32:
         raise Reject("scaled numeric wider than 32 bits: outside the property's range")
     if INT_LIMIT and f["kind"] != "refdef" and int_stored(f) and w > 31:
